@@ -9,7 +9,8 @@ RULE = ("non-trivial = a QR case with condition number > 1e3, a zero in the firs
         "eigenvalue ratio > 0.5, or with an eigenvector that has a zero component (diagonal / block-diagonal / permuted) or is a coordinate vector turned by a tiny angle (nearly diagonal), "
         "or eigenvalues of both signs, or an overall scale beyond 2^+-12, or a structured spectrum (vanishing / nearly vanishing trace, small integers, all ratios at an end of the range) "
         "or structured eigenvectors (orthogonal to a natural start vector of the inverse iteration, small-integer planes), or a zero / nearly zero diagonal (hollow), "
-        "or tuned to need one of the last sweeps the iteration allows (150 .. 200), or a session (calls on one or two Matrix objects with in-place modifications between them); distinct by case text")
+        "or tuned to need one of the last sweeps the iteration allows (150 .. 200), or tuned so that the entries below the diagonal of the iterate cancel in a signed sum at the first tested sweeps, "
+        "or a coupled matrix with a diagonal entry equal (or next) to an eigenvalue, or a session (calls on one or two Matrix objects with in-place modifications between them); distinct by case text")
 LEVEL_TEXT = ("Theorems (Coq, over the reals, every dimension n >= 1): for a non-zero first column x the model of Householder_Matrix returns H = 1 - 2 u u^T with u well defined "
               "(|x - alpha e1|^2 = 2(|x|^2 - alpha x0) >= 2|x|^2 > 0), alpha^2 = |x|^2, H symmetric, H^T H = 1 and H x = alpha e1; "
               "the construction is scale-free, Householder_Matrix(c M) = Householder_Matrix(M) for every c > 0 (C15_Proofs_Scale.v). "
@@ -49,6 +50,15 @@ LEVEL_TEXT = ("Theorems (Coq, over the reals, every dimension n >= 1): for a non
               "(theorem C15_session_call_is_fresh: in the model a call is a function of the current value; C15_relabelling_keeps_trace / _norm / _symmetry / _moves_eigenvectors: relabelling keeps trace, norm and spectrum and permutes the eigenvector components). "
               "over the reals the loop of Find_Eigenvector_Rayleigh never leaves the orthogonal complement of an eigenvector of the symmetric M_inv and stops at once at a start vector that is an eigenvector "
               "(theorems C15_inverse_iteration_keeps_orthogonality, C15_inverse_iteration_stays_at_eigen_start), so for these inputs the clause rests on rounding noise and on the S4 predicates alone. "
+              "The stopping test (C15_Proofs_Stop.v): a matrix that passes the test of Eigenvalues has EVERY entry below the diagonal under 1e-12 of the diagonal mass "
+              "(C15_converged_bounds_every_entry; the test adds absolute values, so entries of opposite sign cannot cancel: C15_cancelling_entries_do_not_pass), hence what Eigenvalues returns "
+              "for a non-singular symmetric M is the diagonal of an orthogonally similar matrix all of whose off-diagonal entries are that small (C15_eigenvalues_every_entry_small); "
+              "the generator tunes dense matrices, with a reference run of the sweeps and a bisection on a rotation angle, until the entries below the diagonal of the iterate after sweep 12 .. 16 "
+              "(1e-3 .. 1e-1 each) cancel to 1e-15 in a linear functional (signed sum, signed sub-diagonal, last row, first column, alternating sum), where only the absolute test keeps the iteration going. "
+              "Exact coincidences between entries and eigenvalues: a matrix that commutes with the exchange of two coordinates i, j has the eigenvector e_i - e_j with eigenvalue m_ii - m_ij "
+              "(C15_exchange_symmetric_eigenvector), and e_k is an eigenvector of no matrix in which coordinate k is coupled, whatever stands at m_kk (C15_coupled_coordinate_not_eigenvector); "
+              "the generator produces such small-integer / dyadic matrices with m_kk equal to that eigenvalue (exactly, at 1 .. 1000 ulp, at 1e-16 .. 1e-6) for Eigensystem, Eigenvectors, Eigenvalues, sessions, "
+              "and asks Find_Eigenvector_Rayleigh for exactly that value; S4 checks M v = lambda v on the pair Find_Eigenvector_Rayleigh returns whenever the value asked for is an eigenvalue (rayleigh:residual, rayleigh:eigenvalue). "
               "Where the library leaves the property at the ends of the double range, on matrices whose leading coordinate subspaces miss a dominant eigenvector, or when the start vector is an eigenvector, "
               "the failing clause carries the input region in its signature (known_findings.d/C15.json: K-C15-1..5).")
 LEVEL_NOTE = ("Coq 8.16.1 kernel, theorems over R (axioms of the real numbers as printed by Print Assumptions); hand-written model tied by differential correspondence "
@@ -711,8 +721,127 @@ def _gen_hollow(rng, n):
     return a, lam, ["structured", tag]
 
 
+# ---- the stopping test of Eigenvalues(): matrices on which a WEAKER test than 'sum of |a_kj| below the diagonal < 1e-12 sum |a_jj|' would stop too early
+def _qr_iterate_sim(ms, sweeps):
+    """Reference run of the unshifted QR iteration (same scheme as _qr_sweeps_sim): the iterate A after `sweeps` sweeps"""
+    n = len(ms); a = [list(r) for r in ms]
+    for _ in range(sweeps):
+        us = []
+        for k in range(n - 1):
+            x = [a[i][k] for i in range(k, n)]
+            nx = math.sqrt(sum(t * t for t in x))
+            if nx == 0.0: us.append(None); continue
+            u = list(x); u[0] += math.copysign(nx, x[0])
+            nu = math.sqrt(sum(t * t for t in u))
+            if nu == 0.0: us.append(None); continue
+            u = [t / nu for t in u]; us.append(u)
+            for j in range(k, n):
+                d = 2.0 * sum(u[i] * a[k + i][j] for i in range(n - k))
+                for i in range(n - k): a[k + i][j] -= d * u[i]
+            for i in range(k + 1, n): a[i][k] = 0.0
+        for k, u in enumerate(us):
+            if u is None: continue
+            for row in a:
+                d = 2.0 * sum(row[k + j] * u[j] for j in range(n - k))
+                for j in range(n - k): row[k + j] -= d * u[j]
+    return a
+
+
+# linear functionals of the part below the diagonal that a weakened stopping test could look at instead of the sum of the absolute values
+_FUNCTIONALS = {
+    "signed-sum": lambda a, n: sum(a[k][j] for j in range(n) for k in range(j + 1, n)),
+    "signed-subdiagonal": lambda a, n: sum(a[j + 1][j] for j in range(n - 1)),
+    "signed-last-row": lambda a, n: sum(a[n - 1][j] for j in range(n - 1)),
+    "signed-first-column": lambda a, n: sum(a[k][0] for k in range(1, n)),
+    "alternating-sum": lambda a, n: sum(a[k][j] * (-1.0) ** (k + j) for j in range(n) for k in range(j + 1, n)),
+}
+
+
+def _gen_cancel(rng, n, sweep, fname):
+    """(matrix, spectrum, tag) or None, n >= 3: a dense symmetric Q diag(lambda) Q^T inside the quantifier (slow ratios 0.6 .. 0.8, either sign) for
+    which, after sweep number `sweep` (>= 12: the first sweeps whose result Eigenvalues() tests), the entries below the diagonal of the
+    iterate are still individually large (1e-3 .. 1e-1 of the diagonal) but CANCEL in the linear functional `fname` (signed sum, ...) to
+    below 1e-15 of the diagonal mass.  The stopping test of the library (sum of absolute values) does not pass there, so the iteration has to
+    go on; a test that accumulates with signs would stop with eigenvalues that are off by ~1e-4.  Found with the reference run of the
+    sweeps: one eigenvector plane is turned by an angle t, a sign change of the functional in t is located on a grid and bisected."""
+    f = _FUNCTIONALS[fname]
+    ratios = [rng.uniform(0.6, 0.8) for _ in range(n - 1)]
+    lam = [x * rng.choice([1.0, -1.0]) for x in _mags(ratios)]
+    sc = 10 ** rng.uniform(-1.5, 1.5) if rng.random() < 0.7 else 1.0
+    lam = [x * sc for x in lam]; rng.shuffle(lam)
+    q0 = _rand_orth(rng, n); i, j = rng.sample(range(n), 2)
+
+    def val(t):
+        q = [list(row) for row in q0]; _rotate_rows(q, i, j, t)
+        m = _sym_from(q, lam); ms, _ = _normalise(m); a = _qr_iterate_sim(ms, sweep)
+        dm = sum(abs(a[d][d]) for d in range(n)); off = sum(abs(a[k][c]) for c in range(n) for k in range(c + 1, n))
+        return m, f(a, n) / dm, off / dm
+    steps = 24; t0 = rng.uniform(0.0, math.pi); grid = [t0 + math.pi * s / steps for s in range(steps + 1)]
+    prev = None; cands = []
+    for t in grid:
+        _, v, off = val(t)
+        if prev is not None and prev[1] * v < 0.0: cands.append((prev[0], t, prev[1], v))
+        prev = (t, v)
+    rng.shuffle(cands)
+    for lo, hi, vlo, vhi in cands:
+        for _ in range(70):
+            mid = 0.5 * (lo + hi)
+            if mid == lo or mid == hi: break
+            _, vm, _ = val(mid)
+            if vm == 0.0: lo = hi = mid; break
+            if vlo * vm < 0.0: hi, vhi = mid, vm
+            else: lo, vlo = mid, vm
+        best = lo if abs(vlo) <= abs(vhi) else hi
+        m, v, off = val(best)
+        # a genuine zero (not a jump of the functional where a reflector changes its sign), the entries still large, and no earlier tested sweep cancels as well
+        if abs(v) < 1e-15 and off > 1e-3:
+            ms, _ = _normalise(m)
+            if all(abs(f(_qr_iterate_sim(ms, s), n)) > 1e-9 for s in range(12, sweep)): return m, lam, f"cancel-{fname}"
+    return None
+
+
+# ---- exact coincidences between matrix entries and eigenvalues: coupled matrices with a diagonal entry that IS an eigenvalue
+def _gen_diag_is_eigenvalue(rng, n):
+    """(matrix, spectrum, tags, mu) or None, n >= 3: a symmetric matrix with small-integer (or dyadic) entries that commutes with the exchange
+    of two coordinates i, j (m_ii = m_jj, m_ik = m_jk): (e_i - e_j) / sqrt 2 is an eigenvector (zero components) with the exactly
+    representable eigenvalue mu = m_ii - m_ij.  A diagonal entry m_kk of a third, COUPLED coordinate is then set to mu (exactly, or next to it
+    at 1 .. 1000 ulp / a relative distance from the ladder): an eigenvalue sits on the diagonal although no coordinate is decoupled.
+    Accepted when the spectrum is inside the quantifier (ratios 0.1 .. 0.8)."""
+    for _ in range(300):
+        den = rng.choice([1.0, 1.0, 1.0, 2.0, 4.0, 8.0]); hi = rng.choice([4, 6, 9, 12])
+        ent = lambda: float(rng.randint(-hi, hi)) / den
+        m = [[0.0] * n for _ in range(n)]
+        for a in range(n):
+            for b in range(a + 1): m[a][b] = m[b][a] = ent()
+        i, j = rng.sample(range(n), 2)
+        m[j][j] = m[i][i]
+        for k in range(n):
+            if k not in (i, j): m[j][k] = m[k][j] = m[i][k]
+        mu = m[i][i] - m[i][j]
+        if mu == 0.0 or m[i][j] == 0.0: continue
+        ks = [k for k in range(n) if k not in (i, j) and any(m[k][c] != 0.0 for c in range(n) if c != k)]
+        if not ks: continue
+        k = rng.choice(ks); m[k][k] = mu
+        if rng.random() < 0.3:                     # a second coupled coordinate carries the same value
+            k2 = rng.choice(ks); m[k2][k2] = mu
+        if _has_1x1_block(m): continue
+        ev = sorted(_jacobi(m), key=abs, reverse=True)
+        if ev[-1] == 0.0 or not all(0.1 <= abs(y / x) <= 0.8 for x, y in zip(ev, ev[1:])): continue
+        if not any(abs(x - mu) <= 1e-12 * abs(mu) for x in ev): continue
+        tags = ["structured", "diag-is-eigenvalue"]; kind = rng.random()
+        if kind < 0.25:
+            u = rng.choice([1, 1, 2, 3, 10, 100, 1000]) * rng.choice([1, -1]); x = mu
+            for _s in range(abs(u)): x = math.nextafter(x, math.copysign(math.inf, u))
+            m[k][k] = x; tags[1] = "diag-next-to-eigenvalue-ulps"
+        elif kind < 0.35:
+            m[k][k] = mu * (1.0 + _rel(rng) * rng.choice([1.0, -1.0])); tags[1] = "diag-next-to-eigenvalue-ladder"
+        if tags[1] != "diag-is-eigenvalue": ev = sorted(_jacobi(m), key=abs, reverse=True)
+        return m, ev, tags, mu
+    return None
+
+
 # ---- sessions: several calls on one or two Matrix objects with in-place modifications between them
-_CALLS = ("sys", "vecs", "vals", "qr")
+_CALLS =("sys", "vecs", "vals", "qr")
 
 
 def _apply_step(cur, oth, st):
@@ -876,6 +1005,36 @@ def generate(rng, tier):
         m, lam, tag = g; tags = [tag, f"n={n}", "cap-200" if tgt == 200 else "cap-197..199" if tgt >= 197 else "cap-150..196"]
         cs.append(Case(_mline("eigenvalues", m), ["eigenvalues"] + tags, tol=(1e-9, 1e-300), info={"lam": lam}))
         if rng.random() < 0.5: cs.append(Case(_mline("eigensystem", m), ["eigensystem"] + tags, tol=(1e-7, 1e-300), info={"lam": lam}))
+    # ---- the stopping test: dense matrices whose iterate after sweep 12 (13, .. 16: the first sweeps that are tested) still has entries of 1e-3 .. 1e-1 below
+    #      the diagonal that cancel in a linear functional (signed sum, signed sub-diagonal, last row, first column, alternating sum) to < 1e-15
+    for k in range(400 if big else 22):
+        n = rng.choice([3, 3, 3, 4, 4, 5] if not big else [3, 3, 3, 4, 4, 5, 6, 7])
+        fname = "signed-sum" if k % 2 == 0 else rng.choice(sorted(_FUNCTIONALS))
+        g = _gen_cancel(rng, n, rng.choice([12, 12, 12, 12, 13, 14, 16]), fname)
+        if g is None: continue
+        m, lam, tag = g; tags = [tag, f"n={n}"]
+        if k % 5 == 4:
+            e, st = _pick_scale(rng, tame=True); m, e = _scale_finite(m, e); lam = [_ldexp(x, e) for x in lam]; tags.append(st)
+        ta = 0.0 if tags[-1].startswith("scale") else 1e-300
+        cs.append(Case(_mline("eigenvalues", m), ["eigenvalues"] + tags, tol=(1e-9, ta), info={"lam": lam}))
+        if k % 2 == 0: cs.append(Case(_mline("eigensystem", m), ["eigensystem"] + tags, tol=(1e-7, ta), info={"lam": lam}))
+    # ---- exact coincidences: coupled matrices (small integers / dyadic entries, symmetric under the exchange of two coordinates) with a diagonal entry
+    #      that is exactly an eigenvalue, or next to one at 1 .. 1000 ulp / 1e-16 .. 1e-6; Find_Eigenvector_Rayleigh is asked for exactly that value as well
+    for k in range(800 if big else 50):
+        n = rng.choice([3, 3, 3, 4, 4, 5] if not big else [3, 3, 3, 4, 4, 5, 6, 7])
+        g = _gen_diag_is_eigenvalue(rng, n)
+        if g is None: continue
+        m, lam, tags, mu = g; tags = tags + [f"n={n}"]
+        cs.append(Case(_mline("rayleigh", m, " " + hx(mu)), ["rayleigh", "at-eigenvalue"] + tags, tol=(1e-7, 1e-300), info={"lam": lam}))
+        if k % 5 == 0:
+            e, st = _pick_scale(rng, tame=True); m, e = _scale_finite(m, e); lam = [_ldexp(x, e) for x in lam]; tags.append(st)
+        ta = 0.0 if tags[-1].startswith("scale") else 1e-300
+        cs.append(Case(_mline("eigensystem", m), ["eigensystem"] + tags, tol=(1e-7, ta), info={"lam": lam}))
+        if k % 3 == 0: cs.append(Case(_mline("eigenvalues", m), ["eigenvalues"] + tags, tol=(1e-9, ta), info={"lam": lam}))
+        if k % 4 == 0: cs.append(Case(_mline("eigenvectors", m), ["eigenvectors"] + tags, tol=(1e-7, ta), info={"lam": lam}))
+        if k % 6 == 1 and len(tags) == 3:
+            steps = _gen_session(rng, m)
+            cs.append(Case(_session_line(m, steps), ["session"] + tags + sorted({"step-" + st[0] for st in steps if st[0] not in _CALLS}), tol=(1e-7, ta), info={"lam": lam}))
     # ---- hollow matrices (zero diagonal: every natural scale taken from the diagonal vanishes), all / some / nearly; most of them moved along the scale ladder
     for k in range(1200 if big else 70):
         n = rng.choice([3, 3, 3, 4, 4, 5, 6, 7])
@@ -971,7 +1130,7 @@ def nontrivial(c, io):
         if not lam: return True
         srt = sorted((abs(x) for x in lam), reverse=True)
         ratio = max((b / a for a, b in zip(srt, srt[1:])), default=0.0)
-        return ratio > 0.5 or any(t.startswith(("diagonal", "block", "near-diagonal", "structured", "cap-")) for t in c.tags) or (min(lam) < 0 < max(lam)) or abs(e) > 12
+        return ratio > 0.5 or any(t.startswith(("diagonal", "block", "near-diagonal", "structured", "cap-", "cancel-")) for t in c.tags) or (min(lam) < 0 < max(lam)) or abs(e) > 12
     return False
 
 
@@ -1188,6 +1347,20 @@ def predicates(c, io):
         if not abs(nv_ - 1.0) <= 8 * n * EPS: out.append(("rayleigh:unit", f"returned vector has norm {nv_!r}"))
         rq = math.fsum(v[i] * math.fsum(m[i][j] * v[j] for j in range(n)) for i in range(n))
         if not abs(lamr - rq) <= 8 * n * n * EPS * nm: out.append(("rayleigh:quotient", f"returned eigenvalue {lamr!r} is not the Rayleigh quotient {rq!r} of the returned vector"))
+        # the clause of the property itself, 'for each eigenvalue a unit vector v and value lambda with M v = lambda v': when the value asked for IS an
+        # eigenvalue of the symmetric M (to 1e-9 |M|; the shift sits 1e-8 |M| next to it, every other eigenvalue is farther away by the separation of
+        # the spectrum) the inverse iteration has to return that eigenpair, with the residual slack of Eigensystem (explicit inverse of condition 1e8)
+        asked = rest[0] if rest else None
+        if not out and isinstance(asked, float) and n >= 1 and all(m[i][j] == m[j][i] for i in range(n) for j in range(i)):
+            cx = _eigen_ctx(m); ms, e, nms = cx["ms"], cx["e"], cx["nms"]
+            near = [x for x in cx["ref"] if abs(x - _ldexp(asked, -e)) <= 1e-9 * nms]
+            srt = sorted(abs(x) for x in cx["ref"])
+            if len(near) == 1 and srt[0] > 0.0 and all(a <= 0.8001 * b for a, b in zip(srt, srt[1:])):
+                reg = ":start-vector-eigenvector" if _start_vector_is_eigenvector(ms, nms) else ""
+                mv = [math.fsum(ms[i][j] * v[j] for j in range(n)) for i in range(n)]; ls = _ldexp(lamr, -e)
+                res = math.sqrt(math.fsum((mv[i] - ls * v[i]) ** 2 for i in range(n)))
+                if not res <= 1e-8 * nms: out.append(("rayleigh:residual" + reg, f"asked for the eigenvalue {asked!r}: |M v - lambda v| / 2^{e} = {res!r} > {1e-8 * nms!r} for the returned pair (lambda = {lamr!r}, v = {v!r})"))
+                elif not abs(ls - near[0]) <= 1e-8 * nms: out.append(("rayleigh:eigenvalue" + reg, f"asked for the eigenvalue {asked!r}, the returned pair belongs to {lamr!r}"))
     elif op in ("det", "inverse") and timeout:
         out.append((f"{op}:timeout", f"{op} did not terminate within the time bound"))
     elif op == "det":
